@@ -440,11 +440,14 @@ def run_scenario(scen, chooser_factory, max_steps=4000, observe=True):
     def observe_now():
         o = {"futs": {k: fut_obs(f) for k, f in sorted(H.futs.items())}}
         exs = []
-        for info in world.executors:
+        for n, info in enumerate(world.executors):
             fl = info["flags"]
+            mgr = eng.actors.get(eng.manager_of.get(id(fl)))
             exs.append({"shutdown": fl.shutdown, "broken": None if fl.broken is None else type(fl.broken).__name__,
                         "kill": fl.kill_workers, "nproc": len(info["processes"]),
-                        "pending": len(info["pending"]), "running": len(info["running"])})
+                        "pending": len(info["pending"]), "running": len(info["running"]),
+                        "mgr": "none" if mgr is None else ("done" if mgr.done else "running"),
+                        "alive_pids": sorted(p.pid for p in list(info["processes"].values()) if p.alive)})
         o["ex"] = exs
         o["in_body"] = sorted((a.name, a.in_body) for a in eng.actors.values()
                               if getattr(a, "in_body", None) is not None and not a.killed and not a.done)
@@ -548,6 +551,41 @@ def random_chooser(seed, p_timeout=0.15, p_crash=0.0, max_crashes=1, p_sleep=0.3
                     return rnd.choice(rest)
                 return rnd.choice(normal)
             return None
+        return choose
+    return factory
+
+
+def delay_chooser(seed, p_timeout=0.1, crash=False, p_delay=0.08):
+    """noise injection at lock acquisitions: now and then an actor that is about to acquire a lock is held back
+    for a few steps while everybody else runs (what a pre-emption right before `with lock:` does) — optionally
+    with a worker killed at that very moment.  Finds check-then-lock races: the held-back actor has already
+    read whatever it read before the `with`."""
+    def factory(eng):
+        rnd = random.Random(f"delay/{seed}")
+        base = random_chooser(seed, p_timeout=p_timeout, p_crash=0.0)(eng)
+        st = {"who": None, "until": 0, "n": 0, "crashed": False}
+
+        def choose(e, choices):
+            st["n"] += 1
+            cs = sorted(choices)
+            if st["who"] is not None and st["n"] >= st["until"]:
+                st["who"] = None
+            if st["who"] is None and rnd.random() < p_delay:
+                acq = sorted({a for a, v in cs if v != "crash" and e.actors[a].pending.kind == "acquire"
+                              and e.actors[a].kind != "proc"})
+                if acq:
+                    st["who"] = rnd.choice(acq)
+                    st["until"] = st["n"] + rnd.randint(4, 14)
+                    cr = [c for c in cs if c[1] == "crash"]
+                    if crash and cr and not st["crashed"] and rnd.random() < 0.6:
+                        st["crashed"] = True
+                        return rnd.choice(cr)
+            if st["who"] is not None:
+                rest = [c for c in cs if c[0] != st["who"] and c[1] != "crash"]
+                if any(v in ("ok", "fail") for _, v in rest):
+                    return base(e, rest)
+                st["who"] = None
+            return base(e, [c for c in cs if c[1] != "crash"] or cs)
         return choose
     return factory
 
